@@ -703,6 +703,9 @@ def setitem(it, o, idx, v):
         it.write_log.append((o, '[]'))
     if hasattr(o, 'pyvc_setitem'):
         return o.pyvc_setitem(it, idx, v)
+    from .interp import DictView
+    if isinstance(o, DictView):
+        return it.setattr(o.obj, idx, v)
     if isinstance(o, dict):
         o[it.hashable(idx)] = v
         return
@@ -739,6 +742,14 @@ def delitem(it, o, idx):
         it.write_log.append((o, '[]'))
     if hasattr(o, 'pyvc_delitem'):
         return o.pyvc_delitem(it, idx)
+    from .interp import DictView
+    if isinstance(o, DictView):
+        if idx in o.obj.attrs:
+            del o.obj.attrs[idx]
+            if it.write_log is not None:
+                it.write_log.append((o.obj, idx))
+            return
+        it.throw('KeyError', idx)
     if isinstance(o, dict):
         k = unbox(idx)
         if isinstance(k, Sym):
@@ -1098,6 +1109,16 @@ def builtin_method(it, obj, name):
         return str_method(it, o, name)
     if isinstance(o, list):
         return list_method(it, o, name)
+    from .interp import DictView
+    if isinstance(o, DictView):
+        if name == 'copy':
+            return Native('__dict__.copy', lambda it2, a, k: dict(o.obj.attrs))
+        if name == 'update':
+            def upd(it2, a, k):
+                for kk, v in (a[0].items() if a else []):
+                    it2.setattr(o.obj, kk, v)
+            return Native('__dict__.update', upd)
+        return dict_method(it, o.obj.attrs, name)
     if isinstance(o, dict):
         return dict_method(it, o, name)
     if isinstance(o, (set,)):
